@@ -1,6 +1,7 @@
 package harness
 
 import (
+	"bytes"
 	"fmt"
 	"sort"
 	"testing"
@@ -157,5 +158,81 @@ func TestC15(t *testing.T) {
 		})
 		mc.CheckFull(t, false)
 		RecordCase("C15", mc.Desc(), interesting, mc.Labels()...)
+	})
+}
+
+// TestC15Snapshot: transactions that commit WHILE a snapshot is in progress (run
+// by the verif hooks at the snapshot's yield points) must still emit exactly one
+// commit per changed block to the logger - the snapshot's own recorder is not a
+// substitute for the change stream.
+func TestC15Snapshot(t *testing.T) {
+	rapid.Check(t, func(t *rapid.T) {
+		sch := genSchema(t, SchemaCfg{Key: 1, MinCols: 1, MaxCols: 3, Capacities: []int{1, 1024, 16385}})
+		log := &recLogger{}
+		mc := NewMachine("C15", sch, column.Options{Writer: log})
+		defer mc.Close()
+		defer mc.Guard(t)
+		defer column.SetVerifHook(nil)
+		cfg := TxnCfg{Prop: "C15", MaxSteps: 4, Deletes: true, Inserts: true, Merges: true, NoStoreOnDel: KFActive("f11-store-and-delete-same-txn"),
+			NoOpAfterLenMerge: KFActive("f15-difflen-merge-reorder")}
+		switch rapid.IntRange(0, 2).Draw(t, "layout") {
+		case 0:
+			mc.ActPrefill(t, rapid.IntRange(1, 60).Draw(t, "n"), storableCols(mc.M, TxnCfg{}), rapid.Uint64().Draw(t, "seed"))
+		case 1:
+			mc.ActPrefill(t, 16390, storableCols(mc.M, TxnCfg{})[:1], rapid.Uint64().Draw(t, "seed"))
+			mc.thin(t, 20)
+		}
+		sc := newStreamChecker()
+		for _, rc := range log.Since(0) {
+			if err := sc.add(rc); err != nil {
+				mc.fail(t, "%v", err)
+			}
+		}
+		during := 0
+		for round := 0; round < 3; round++ {
+			plan := map[string]int{}
+			for _, p := range []string{"snapshot:recorder-open", "snapshot:pre-chunk:0", "snapshot:pre-chunk:1", "snapshot:pre-close", "snapshot:pre-copy"} {
+				plan[p] = rapid.IntRange(0, 2).Draw(t, "tail-at-"+p)
+			}
+			n0 := log.Len()
+			remove := mc.installTail(t, plan, cfg, func(point string, eff *TxnEffect, committed bool) {
+				got := map[uint32]int{}
+				for _, rc := range log.Since(n0) {
+					got[uint32(rc.Chunk)]++
+					if err := sc.add(rc); err != nil {
+						mc.fail(t, "commit during a snapshot (at %s): %v", point, err)
+					}
+				}
+				n0 = log.Len()
+				want := map[uint32]bool{}
+				if committed {
+					want = eff.Blocks
+				}
+				for b := range want {
+					if got[b] != 1 {
+						mc.fail(t, "a transaction that committed while a snapshot was in progress (at %s) changed block %d; %d commit(s) reached the change stream for it (emitted: %s)", point, b, got[b], blocksString(got))
+					}
+				}
+				for b, n := range got {
+					if !want[b] {
+						mc.fail(t, "during a snapshot (at %s): %d commit(s) emitted for block %d, which the transaction did not change", point, n, b)
+					}
+				}
+				if len(want) > 0 {
+					during++
+				}
+			})
+			var buf bytes.Buffer
+			err := mc.C.Snapshot(&buf)
+			remove()
+			if err != nil {
+				mc.fail(t, "Snapshot: %v", err)
+			}
+			if extra := log.Len() - n0; extra != 0 {
+				mc.fail(t, "%d commit(s) reached the change stream from the snapshot itself", extra)
+			}
+		}
+		mc.CheckFull(t, false)
+		RecordCase("C15", mc.Desc(), during > 0, "commits-during-snapshot")
 	})
 }
